@@ -60,7 +60,7 @@ func genC14Obj(t *rapid.T, kind string, n int) *world.Obj {
 	case world.KConfigMap:
 		o.NS = world.CtlNS
 		o.Name = rapid.SampledFrom([]string{"haproxy-ingress", "haproxy-ingress", "tcp-services", "unrelated"}).Draw(t, "cmname")
-		o.Data = map[string]string{"k": fmt.Sprintf("v%d", n)}
+		o.Data = map[string]string{"k": rapid.SampledFrom([]string{"v1", "v2", "v3"}).Draw(t, "cmvalue")}
 	case world.KService:
 		o.Ports = []world.SvcPort{{Port: 80}}
 	case world.KEndpoints:
@@ -132,7 +132,8 @@ func genC14(t *rapid.T) C14Case {
 			}
 			nw.Gen++
 		case world.KConfigMap:
-			nw.Data = map[string]string{"k": fmt.Sprintf("v%d", cnt)}
+			// a small value alphabet: changes are often reverted (A -> B -> A), also inside one batch
+			nw.Data = map[string]string{"k": rapid.SampledFrom([]string{"v1", "v2", "v3"}).Draw(t, "cmvalue")}
 		case world.KService:
 			if rapid.Bool().Draw(t, "svcspec") {
 				nw.Gen++
